@@ -142,9 +142,7 @@ func runBigInt(prog []biStep) (line string) {
 			fmt.Sscan(s.arg, &ri)
 			m2 = ri
 			z.QuoRem(x, y, &regs[ri])
-			q, rr := new(big.Int).QuoRem(mx, my, new(big.Int))
-			mir[s.d].Set(q)
-			mir[ri].Set(rr)
+			mir[s.d].QuoRem(mx, my, mir[ri]) // the mirror with the same aliasing (ri may be d: math/big stores the remainder last)
 			mz = mir[s.d]
 		case "Lsh":
 			z.Lsh(x, uint(argv.Int64()))
@@ -301,7 +299,7 @@ func (r *rng) genBigIntProg() []biStep {
 			}
 		case "QuoRem", "DivMod":
 			ri := r.intn(4)
-			if y.Sign() == 0 || ri == s.d {
+			if y.Sign() == 0 || (ri == s.d && s.op == "DivMod") {
 				continue
 			}
 			if s.op == "DivMod" && ri == s.b {
@@ -311,9 +309,7 @@ func (r *rng) genBigIntProg() []biStep {
 			}
 			s.arg = fmt.Sprint(ri)
 			if s.op == "QuoRem" {
-				q, rr := new(big.Int).QuoRem(x, y, new(big.Int))
-				mir[s.d].Set(q)
-				mir[ri].Set(rr)
+				mir[s.d].QuoRem(x, y, mir[ri])
 			} else {
 				q, rr := new(big.Int).DivMod(x, y, new(big.Int))
 				mir[s.d].Set(q)
